@@ -899,3 +899,11 @@ def activation_resumes(path: Path):
             result.append((index, node.func.attr,
                            normalise_state_aliases(ast.unparse(receiver.value))))
     return result
+
+
+def origin(path: Path, index: int, expr):
+    """(expanded text, position of the store that created the value | None): two
+    expressions with the same origin denote the very same object on this path"""
+    trace = []
+    text = normalise_state_aliases(ast.unparse(value_expr(path, index, expr, trace=trace)))
+    return text, (trace[-1] if trace else None)
